@@ -32,7 +32,7 @@ Variable Rel1 : A -> A -> Prop.
 Hypothesis Hwf1 : WF p1.
 Hypothesis Hsim1 : Sim p1 (q1 None).
 Hypothesis Hel1 : forall o, QSg Good (Rel1 o) p1 (q1 (Some o)).
-Hypothesis Hstart1 : forall o a s s1, Rel1 o a -> refp s <= pos s -> p1 s = POk s1 a -> i_s (inf o) = pos s - refp s.
+Hypothesis Hstart1 : forall o a s s1, Rel1 o a -> refp s <= pos s -> pos s <= N -> p1 s = POk s1 a -> i_s (inf o) = pos s - refp s.
 Hypothesis Hncc : NCC toks.
 
 Definition pcp : parser (A * nat * nat) := p_ref (p_preceded (p_tag toks (is_k Comma)) (p_ref p1)).
@@ -41,7 +41,7 @@ Definition gcp (r : A * nat * nat) : A * nat := (fst (fst r), snd r + snd (fst r
 Lemma pcp_inv s s1 r :
   pcp s = POk s1 r ->
   snd r = pos s - refp s /\ snd (fst r) = 1 /\
-  exists st s0, p1 st = POk s0 (fst (fst r)) /\ refp st = pos st.
+  exists st s0, p1 st = POk s0 (fst (fst r)) /\ refp st = pos st /\ pos st <= N.
 Proof.
   unfold pcp. intros E. apply p_ref_ok in E as (s0 & E & -> & Ho).
   unfold p_preceded in E. apply p_map_ok in E as (ab & E & Hr). apply p_pair_ok in E as (st & Et & E).
@@ -52,7 +52,8 @@ Proof.
   assert (Hsig : sig_at toks (pos s) = pos s) by (unfold sig_at; rewrite Hc; cbn [length]; lia).
   rewrite Hsig in *. split; [exact Ho|]. split.
   - rewrite Hr, Hio. lia.
-  - rewrite Hr. eexists _, _. split; [exact E|]. reflexivity.
+  - rewrite Hr. eexists _, _. split; [exact E|]. split; [reflexivity|]. cbn [pos set_refp adv].
+    assert (pos s < N) by (apply nth_error_Some; rewrite Hn; discriminate). lia.
 Qed.
 
 Lemma WF_pcp : WF pcp.
@@ -84,8 +85,8 @@ Qed.
 
 Lemma start_pcp o r s s1 : Rel_cp o r -> refp s <= pos s -> pcp s = POk s1 r -> cp_start inf o <= pos s.
 Proof.
-  intros (H1 & H2 & H3) Hs E. destruct (pcp_inv _ _ _ E) as (Ho & _ & st & s0 & E1 & Hst).
-  unfold cp_start. rewrite (Hstart1 _ _ st s0 H3 ltac:(lia) E1). rewrite <- H1, Ho. lia.
+  intros (H1 & H2 & H3) Hs E. destruct (pcp_inv _ _ _ E) as (Ho & _ & st & s0 & E1 & Hst & Hb).
+  unfold cp_start. rewrite (Hstart1 _ _ st s0 H3 ltac:(lia) Hb E1). rewrite <- H1, Ho. lia.
 Qed.
 
 Lemma QS_list fuel olds :
